@@ -402,6 +402,7 @@ class TxnModel(object):
     def __init__(self, C, pre, lenient=False):
         self.C = C
         self.docs = [list(d) for d in pre.phys]     # committed: [kid, ti, e, deleted]
+        self._pre_phys = pre.phys
         self.orig_deleted = [bool(d[3]) for d in pre.phys]
         self.pending = []
         self.has_e = pre.has_e
@@ -443,6 +444,10 @@ class TxnModel(object):
             self.pending.append((op[1], op[2], 1 if self.has_e else 0))
             return None, op
         if k in ("dkey", "dk2", "dtxt", "dq"):
+            if is_xs(op) and (self.pending or self.docs != [list(d) for d in self._pre_phys]):
+                # only as the first operation of a writer: then the caller's
+                # searcher and the writer's own see the same documents
+                raise InvalidHistory("searcher= form after other operations")
             name, arg = C.del_spec(op)
             pred = C.pred(name, arg)
             n = 0
@@ -485,8 +490,21 @@ class TxnModel(object):
         return sorted(out + self.pending)
 
 
-def real_apply(C, w, op, has_e):
+def is_xs(op):
+    """delete_by_* handed the documented searcher= argument (a searcher the
+    caller opened on the committed state) instead of the writer's own"""
+    return len(op) > 2 and op[-1] == "xs"
+
+
+def real_apply(C, w, op, has_e, ext=None):
     k = op[0]
+    if is_xs(op):
+        if ext is None:
+            raise InvalidHistory("no external searcher")
+        name, arg = C.del_spec(op)
+        if k == "dq":
+            return w.delete_by_query(C.query(op[1]), searcher=ext)
+        return w.delete_by_term(name, arg, searcher=ext)
     if k == "add":
         w.add_document(**C.fields(op[1], op[2], has_e))
     elif k == "upd":
@@ -554,7 +572,12 @@ def run_txn(W, txn, pre, checks=True, lenient=False):
             exp, op2 = m.apply(op)
             eff.append(op2)
             try:
-                got = real_apply(C, w, op2, m.has_e)
+                ext = None
+                if is_xs(op2):
+                    ext = holder.get("held")
+                    if ext is None:
+                        ext = holder["held"] = holder["own_ext"] = ix.searcher()
+                got = real_apply(C, w, op2, m.has_e, ext)
             except Exception as e:
                 res.problems.append(("op:" + op2[0], "exc:%s@%s" % (type(e).__name__, where(e)),
                                      "%r raised %r" % (op2, e)))
@@ -594,7 +617,16 @@ def run_txn(W, txn, pre, checks=True, lenient=False):
     if checks:
         try:
             held = ix.searcher()
+            # use it before the transaction, so that whatever it caches
+            # (sort arrays, idf, filters) is there when it is refreshed
+            _view(held)
+            holder["held"] = held
         except Exception:
+            if held is not None:
+                try:
+                    held.close()
+                except Exception:
+                    pass
             held = None
     try:
         if end in ("raise", "raiseb", "with"):
@@ -612,11 +644,16 @@ def run_txn(W, txn, pre, checks=True, lenient=False):
                 raise InvalidHistory("ixapi needs exactly one delete_by_* op")
             exp, op2 = m.apply(ops[0])
             eff.append(op2)
+            xkw = {}
+            if is_xs(op2):
+                if holder.get("held") is None:
+                    holder["held"] = holder["own_ext"] = ix.searcher()
+                xkw = {"searcher": holder["held"]}
             if op2[0] == "dq":
-                ix.delete_by_query(C.query(op2[1]))
+                ix.delete_by_query(C.query(op2[1]), **xkw)
             else:
                 name, arg = C.del_spec(op2)
-                ix.delete_by_term(name, arg)
+                ix.delete_by_term(name, arg, **xkw)
         elif end == "ixoptimize":
             if ops:
                 raise InvalidHistory("ixoptimize takes no ops")
@@ -643,6 +680,11 @@ def run_txn(W, txn, pre, checks=True, lenient=False):
         res.problems.append(("end:" + end, "exc:%s@%s" % (type(e).__name__, where(e)),
                              "%s after %r raised %r" % (end, eff, e)))
         _release(holder.get("w"))
+    if holder.get("own_ext") is not None:
+        try:
+            holder["own_ext"].close()
+        except Exception:
+            pass
     res.txn = {"ops": eff if len(eff) == len(ops) else list(ops), "end": end}
     if res.problems:
         if held is not None:
@@ -723,10 +765,24 @@ def _view(s):
     post = {}
     for t in r.lexicon("key"):
         post[t] = list(r.postings("key", t).all_ids())
-    return {"generation": r.generation(), "doc_count": r.doc_count(), "is_deleted": dele,
-            "all_doc_ids": list(r.all_doc_ids()), "every": sorted(s.docs_for_query(Q.Every())),
-            "stored": [(n, sorted(s.stored_fields(n).items(), key=repr)) for n in range(dca) if not dele[n]],
-            "postings": post}
+    out = {"generation": r.generation(), "doc_count": r.doc_count(), "is_deleted": dele,
+           "all_doc_ids": list(r.all_doc_ids()), "every": sorted(s.docs_for_query(Q.Every())),
+           "stored": [(n, sorted(s.stored_fields(n).items(), key=repr)) for n in range(dca) if not dele[n]],
+           "postings": post}
+    # reads that go through per-searcher caches (sort arrays of a field without
+    # a column, idf values, filter sets, collection statistics)
+    words = sorted(r.lexicon("t"))
+    out["stats"] = [(w, r.doc_frequency("t", w), r.frequency("t", w)) for w in words] + [r.field_length("t")]
+    out["scores"] = [(w, [(h.docnum, round(h.score, 9)) for h in s.search(Q.Term("t", w), limit=None)]) for w in words]
+    if r.doc_count():
+        out["sorted:t"] = [h.docnum for h in s.search(Q.Every(), sortedby="t", limit=None)]
+        out["sorted:t:rev"] = [h.docnum for h in s.search(Q.Every(), sortedby="t", reverse=True, limit=None)]
+        out["sorted:key"] = [h.docnum for h in s.search(Q.Every(), sortedby="key", limit=None)]
+        gr = s.search(Q.Every(), groupedby="g", limit=None).groups("g")
+        out["groups:g"] = sorted((repr(k), sorted(v)) for k, v in gr.items())
+        if words:
+            out["filter"] = [h.docnum for h in s.search(Q.Every(), filter=Q.Term("t", words[0]), limit=None)]
+    return out
 
 
 def refreshed_vs_fresh(held, ix):
@@ -740,12 +796,13 @@ def refreshed_vs_fresh(held, ix):
         # (refresh() documents that the original searcher cannot be used any
         # more: its readers may live on inside the new one)
         s2.close()
-    for k in ("generation", "doc_count", "is_deleted", "all_doc_ids", "every", "stored", "postings"):
-        if a[k] != b[k]:
+    for k in ("generation", "doc_count", "is_deleted", "all_doc_ids", "every", "stored", "postings",
+              "stats", "scores", "sorted:t", "sorted:t:rev", "sorted:key", "groups:g", "filter"):
+        if a.get(k) != b.get(k):
             kind = k
             if k in ("is_deleted", "all_doc_ids", "every"):
                 kind = k + ":deleted-doc-visible" if any(x and not y for x, y in zip(b["is_deleted"], a["is_deleted"])) else k
-            return ("refresh", kind, "searcher.refresh() after the commit: %s = %r, a fresh searcher has %r" % (k, a[k], b[k]))
+            return ("refresh", kind, "searcher.refresh() after the commit: %s = %r, a fresh searcher has %r" % (k, a.get(k), b.get(k)))
     return None
 
 
@@ -1001,6 +1058,7 @@ def ops_alpha(C, key, alpha):
             ops.append(["dk2", i])
         ops += [["dtxt", 0], ["dtxt", 1]]
         ops += [["dq", n] for n in ("or", "not", "every", "and", "everyf")]
+        ops += [["dkey", 0, "xs"], ["dtxt", 1, "xs"], ["dq", "not", "xs"]]
         ops += [ddoc(n) for n, _ in livedocs]
     elif alpha == "core":
         if C.name == "two":
@@ -1010,7 +1068,7 @@ def ops_alpha(C, key, alpha):
             ops += [["add", 0, 0], ["add", 1, 1], ["add", 2, 2], ["add", 0, 2],
                     ["upd", 0, 1], ["upd", 1, 2], ["upd", 2, 0]]
             ops += [["dkey", 0], ["dkey", 1]]
-        ops += [["dtxt", 0], ["dtxt", 1], ["dq", "or"], ["dq", "not"], ["dq", "every"]]
+        ops += [["dtxt", 0], ["dtxt", 1], ["dq", "or"], ["dq", "not"], ["dq", "every"], ["dtxt", 0, "xs"]]
         if livedocs:
             ops.append(ddoc(livedocs[0][0]))
             if len(livedocs) > 1:
@@ -1094,7 +1152,7 @@ def txns_for(C, key, blocks):
         for n in b["n"]:
             for seq in itertools.product(ops, repeat=n):
                 seq = [list(o) for o in seq]
-                if not disciplined(C, seq):
+                if not disciplined(C, seq) or any(is_xs(o) for o in seq[1:]):
                     continue
                 for end in b["ends"]:
                     emit(seq, end)
@@ -1146,7 +1204,7 @@ def check_history(cd, hist, lenient=False, reads="all"):
 
 
 def sig_of(txn, api, kind, suffix=""):
-    kinds = sorted(set(o[0] for o in txn["ops"])) or ["noop"]
+    kinds = sorted(set(o[0] + ("(searcher=)" if is_xs(o) else "") for o in txn["ops"])) or ["noop"]
     if api.startswith("ret:"):
         api = "delete_by-return-value"
     return "%s|%s|%s|%s%s" % ("+".join(kinds), txn["end"], api, kind, suffix)
